@@ -589,6 +589,62 @@ static void do_ser(char* line) {
   if (a_live != 0) ob_printf(" LEAK=%ld", a_live);
 }
 
+/* ------------------------------------------------------------------ stream: bigsuffix (C14)
+ * "x|n": x followed by n zero bytes of an untouched anonymous mapping (costs no memory): decoding
+ * must give exactly what decoding x alone gives */
+#include <sys/mman.h>
+static void do_bigsuffix(char* line) {
+  char* bar = strchr(line, '|');
+  if (!bar) { ob_printf("BADCASE"); return; }
+  *bar = 0;
+  size_t n; unsigned char* x = parse_hex(line, &n);
+  size_t ysize = (size_t)strtoull(bar + 1, NULL, 0);
+  size_t total = n + ysize;
+  unsigned char* buf = mmap(NULL, total ? total : 1, PROT_READ | PROT_WRITE, MAP_PRIVATE | MAP_ANONYMOUS | MAP_NORESERVE, -1, 0);
+  if (buf == MAP_FAILED) { ob_printf("MMAPFAIL"); free(x); return; }
+  memcpy(buf, x, n); free(x);
+  struct cbor_load_result res; memset(&res, 0xAA, sizeof res);
+  a_reset(); a_live = 0;
+  cbor_item_t* it = cbor_load(buf, total, &res);
+  if (it) {
+    ob_printf("ok %zu ", res.read);
+    dump_rc_ok = true; dump_item(it);
+    cbor_decref(&it);
+  } else ob_printf("err %s %zu %zu", err_s(res.error.code), res.error.position, res.read);
+  if (a_live != 0) ob_printf(" LEAK=%ld", a_live);
+  munmap(buf, total ? total : 1);
+}
+
+/* ------------------------------------------------------------------ stream: bigitem (C14, thorough)
+ * "n": a definite byte string of n zero bytes (8-byte length head) followed by the item 01, in an
+ * anonymous mapping: the first decode must consume exactly 9+n bytes, the second must find 01 */
+static void do_bigitem(char* line) {
+  size_t n = (size_t)strtoull(line, NULL, 0);
+  size_t total = 9 + n + 1;
+  unsigned char* buf = mmap(NULL, total, PROT_READ | PROT_WRITE, MAP_PRIVATE | MAP_ANONYMOUS | MAP_NORESERVE, -1, 0);
+  if (buf == MAP_FAILED) { ob_printf("MMAPFAIL"); return; }
+  buf[0] = 0x5B; for (int i = 0; i < 8; i++) buf[1 + i] = (unsigned char)(n >> (56 - 8 * i));
+  buf[9 + n] = 0x01;
+  size_t save_cap = a_cap; a_cap = (size_t)-1;
+  cbor_set_allocs(malloc, realloc, free);
+  struct cbor_load_result res; memset(&res, 0xAA, sizeof res);
+  cbor_item_t* it = cbor_load(buf, total, &res);
+  if (!it) ob_printf("err %s %zu", err_s(res.error.code), res.error.position);
+  else {
+    ob_printf("ok %zu len=%zu", res.read, cbor_isa_bytestring(it) ? cbor_bytestring_length(it) : (size_t)-1);
+    size_t rd = res.read;
+    cbor_decref(&it);
+    if (rd < total) {
+      cbor_item_t* it2 = cbor_load(buf + rd, total - rd, &res);
+      if (it2 && cbor_isa_uint(it2)) { ob_printf(" next=ok:%zu", res.read); cbor_decref(&it2); }
+      else { ob_printf(" next=BAD"); if (it2) cbor_decref(&it2); }
+    } else ob_printf(" next=NONE");
+  }
+  cbor_set_allocs(hx_malloc, hx_realloc, hx_free);
+  a_cap = save_cap;
+  munmap(buf, total);
+}
+
 /* ------------------------------------------------------------------ stream: seq (C14 CBOR sequences) */
 static void do_seq(char* line) {
   size_t n; unsigned char* all = parse_hex(line, &n);
@@ -687,7 +743,13 @@ static char* ser_hex(cbor_item_t* it) {
 }
 static void do_copy(char* line) {
   a_reset(); a_live = 0;
-  cbor_item_t* src = item_of_sexp(line);
+  cbor_item_t* src;
+  if (line[0] == '@') {   /* source obtained from the decoder instead of the construction API */
+    size_t n; unsigned char* buf = parse_hex(line + 1, &n);
+    struct cbor_load_result res;
+    src = cbor_load(buf, n, &res);
+    free(buf);
+  } else src = item_of_sexp(line);
   if (!src) { ob_printf("BADCASE"); return; }
   char* before = ser_hex(src);
   size_t mark = ob_len; dump_rc_ok = true; dump_item(src); char* shape_before = strdup(ob + mark); ob_len = mark; ob[mark] = 0;
@@ -861,7 +923,7 @@ int main(int argc, char** argv) {
            sizeof(struct cbor_pair), sizeof(struct cbor_indefinite_string_data), sizeof(struct _cbor_stack_record));
     return 0;
   }
-  if ((!strcmp(stream, "load") || !strcmp(stream, "rt") || !strcmp(stream, "loadpost") || !strcmp(stream, "depth") || !strcmp(stream, "seq")) && argc >= 4) {
+  if ((!strcmp(stream, "load") || !strcmp(stream, "rt") || !strcmp(stream, "loadpost") || !strcmp(stream, "depth") || !strcmp(stream, "seq") || !strcmp(stream, "bigsuffix")) && argc >= 4) {
     /* argv[2] = expected L (checked), argv[3] = allocator cap */
     if ((long)CBOR_MAX_STACK_SIZE != atol(argv[2])) { fprintf(stderr, "hx: library L=%d, asked %s\n", (int)CBOR_MAX_STACK_SIZE, argv[2]); return 2; }
     a_cap = (size_t)strtoull(argv[3], NULL, 0);
@@ -878,6 +940,8 @@ int main(int argc, char** argv) {
   else if (!strcmp(stream, "ser")) f = do_ser;
   else if (!strcmp(stream, "rt")) f = do_rt;
   else if (!strcmp(stream, "seq")) f = do_seq;
+  else if (!strcmp(stream, "bigsuffix")) f = do_bigsuffix;
+  else if (!strcmp(stream, "bigitem")) f = do_bigitem;
   else if (!strcmp(stream, "utf8")) f = do_utf8;
   else if (!strcmp(stream, "dfa")) f = do_dfa;
   else if (!strcmp(stream, "mem")) f = do_mem;
